@@ -55,6 +55,12 @@ def _data(x):
     return None
 
 
+def arg_digests(f):
+    """digests of the forward values of the Function arguments of node f (what its pullback is going to read)"""
+    import algopy
+    return [digest(a.x) for a in f.args if isinstance(a, algopy.Function) and a is not f]
+
+
 def share_pos(cg, f, attr):
     """position (in functionList) of the first Function argument whose attr (x / xbar) shares memory with f's; -1 if none"""
     import algopy
@@ -101,7 +107,7 @@ def install():
         EVENTS.append({"ev": "Create", "n": nid(r), "g": gid(cg) if cg is not None else 0,
                        "id": r.ID if cg is not None and getattr(r, "ID", None) is not None else -1,
                        "pos": (cg.functionList.index(r) if cg is not None and r in cg.functionList else -1),
-                       "cnt": cg.functionCount if cg is not None else -1, "before": before,
+                       "cnt": cg.functionCount if cg is not None else -1, "before": before, "ad": arg_digests(r),
                        "args": args, "op": getattr(func, "__name__", "?"), "set": getattr(func, "__name__", "") == "setitem"})
         return r
     F.create = classmethod(n_create)
@@ -116,7 +122,7 @@ def install():
                 k = cg.functionList.index(Fout)
             except ValueError:
                 k = -1
-            EVENTS.append({"ev": "FwdNode" if m[0] == "fwd" else "Redo", "g": gid(cg), "k": k})
+            EVENTS.append({"ev": "FwdNode" if m[0] == "fwd" else "Redo", "g": gid(cg), "k": k, "ad": arg_digests(Fout)})
         return r
     F.pushforward = classmethod(n_pf)
 
@@ -149,6 +155,7 @@ def install():
 
     o_pb = F.pullback.__func__
     def n_pb(cls, Fn):
+        ad = arg_digests(Fn)           # BEFORE the pullback (which restores overwritten buffer entries afterwards)
         r = o_pb(cls, Fn)
         m = _state["mode"]
         if m is not None and m[0] == "pb":
@@ -157,7 +164,7 @@ def install():
                 k = cg.functionList.index(Fn)
             except ValueError:
                 k = -1
-            EVENTS.append({"ev": "PbNode", "g": gid(cg), "k": k})
+            EVENTS.append({"ev": "PbNode", "g": gid(cg), "k": k, "ad": ad})
         return r
     F.pullback = classmethod(n_pb)
 
